@@ -24,6 +24,14 @@ def fn(name, arity=1):
 PI = z3.Real("pi")
 
 
+def pi(ctx):
+    """the constant pi; its numeric enclosure is added to the path condition the first time it is used"""
+    if ctx is not None and not ctx.ghost.get("pi_bounded"):
+        ctx.ghost["pi_bounded"] = True
+        ctx.add_axiom(z3.And(PI > z3.RealVal("3.14159265"), PI < z3.RealVal("3.14159266")), "3.14159265 < pi < 3.14159266")
+    return PI
+
+
 def _axioms_for(name, x, fx):
     """ground axiom instances about fx = name(x)"""
     ax = []
@@ -34,6 +42,7 @@ def _axioms_for(name, x, fx):
     elif name == "log":
         ax.append(("log(1) = 0", z3.Implies(x == 1, fx == 0)))
         ax.append(("log(x) <= x - 1 for x > 0", z3.Implies(x > 0, fx <= x - 1)))
+        ax.append(("log(x) > 0 iff x > 1; log(x) < 0 iff 0 < x < 1", z3.And(z3.Implies(x > 1, fx > 0), z3.Implies(z3.And(x > 0, x < 1), fx < 0))))
     elif name == "sqrt":
         ax.append(("sqrt(x) >= 0 and sqrt(x)^2 = x for x >= 0", z3.Implies(x >= 0, z3.And(fx >= 0, fx * fx == x))))
     elif name in ("sin", "cos"):
@@ -55,7 +64,21 @@ def _axioms_for(name, x, fx):
     return ax
 
 
+DEFINED = {
+    # torch functions that are *defined* through exp / log (so identities between them are visible to
+    # the solver and to the CAS back end); float-level shortcuts (Softplus threshold, expm1/log1p
+    # accuracy) are rounding-level facts outside the real-number reading
+    "sigmoid": lambda ctx, x: 1 / (1 + apply(ctx, "exp", -x)),
+    "softplus": lambda ctx, x: apply(ctx, "log", 1 + apply(ctx, "exp", x)),
+    "expm1": lambda ctx, x: apply(ctx, "exp", x) - 1,
+    "log1p": lambda ctx, x: apply(ctx, "log", 1 + x),
+    "logsigmoid": lambda ctx, x: -apply(ctx, "log", 1 + apply(ctx, "exp", -x)),
+}
+
+
 def apply(ctx, name, x, axioms=True):
+    if name in DEFINED:
+        return DEFINED[name](ctx, x)
     f = fn(name)
     fx = f(x)
     if axioms and ctx is not None:
